@@ -18,6 +18,7 @@ import json
 import multiprocessing
 import os
 import re
+import sys
 import zlib
 from collections import OrderedDict
 from concurrent.futures import ProcessPoolExecutor, ThreadPoolExecutor
@@ -825,6 +826,32 @@ def _observe_batch(args):
 
 # ---------------------------------------------------------------------------------------------------------
 
+def print_summary(module, name, observations, strip=''):
+    """The ONE line an extra module prints per run (nothing when there is nothing to observe): the classes with their counts,
+    most frequent first, at most 300 characters.  Count and smallest example of every class stay in the evidence
+    (ctx.cov[name]['observations'])."""
+    if not observations:
+        return
+    try:
+        '\u2014\u2026'.encode(getattr(sys.stdout, 'encoding', None) or 'ascii')
+        dash, dots = '\u2014', '\u2026'
+    except (UnicodeError, LookupError):
+        dash, dots = '--', '...'
+    head = 'OBSERVATION (%s, outside the listed properties) %d classes, %d cases: ' % (
+        module, len(observations), sum(v['count'] for v in observations.values()))
+    tail = ' %s details in evidence coverage.%s.observations' % (dash, name)
+    items = ['%s (%d)' % (k[len(strip):] if strip and k.startswith(strip) else k, v['count'])
+             for k, v in sorted(observations.items(), key=lambda kv: (-kv[1]['count'], kv[0]))]
+    room = 300 - len(head) - len(tail)
+    shown = []
+    for n, item in enumerate(items):
+        if len(', '.join(shown + [item])) + (len(dots) + 2 if n + 1 < len(items) else 0) > room:
+            shown.append(dots)
+            break
+        shown.append(item)
+    print(head + ', '.join(shown) + tail)
+
+
 class Notes:
     """Observation classes with their smallest example."""
     def __init__(self):
@@ -842,27 +869,9 @@ class Notes:
             cur['example'] = dict(case={k: v for k, v in case.items() if k != 'id'}, observed=seen, source=source)
 
     def report(self):
-        out = {}
-        for key, v in sorted(self.obs.items()):
-            out[key] = dict(count=v['count'], example=v['example'])
-            print('OBSERVATION (Equal, outside the listed properties) %s: %d cases, e.g. %s' % (
-                key.split('/', 1)[1], v['count'], describe(v['example'])))
+        out = {key: dict(count=v['count'], example=v['example']) for key, v in sorted(self.obs.items())}
+        print_summary('Equal', 'equal', out, strip='Equal/')
         return out
-
-
-def describe(ex):
-    c, o = ex['case'], ex['observed']
-    if c['kind'] == 'meta':
-        return 'TestMetadata(%s, exclude=%s) -> verdict %s, per_key %s%s' % (
-            c['vals'], 'default' if c.get('default_exclude') else c['excl'], o.get('verdict'), o.get('perkey'),
-            (' raised ' + o['exc']) if o.get('exc') else '')
-    ds = lambda d: '%s%s=%s' % (dict(zip(d['names'], d['edges'])) if d['names'] else 'no bins', tuple(d['shape']), d['val'])
-    tail = ('raised ' + o['exc']) if o.get('raised') else 'equal=%s bool=%s listed=%s' % (o.get('eq'), o.get('eqv'), o.get('listed'))
-    opts = ' '.join('%s=%s' % (k, c[k]) for k in ('layout', 'dtype', 'bins') if c.get(k) not in (None, 'C', 'float', 'array'))
-    if not o.get('raised'):
-        tail += '; approx verdicts over the grid %s: %s' % (['%d/%d' % tuple(t) for t in c['tols']], o.get('apv'))
-    return 'ref %s vs %s %s(values / %d, edges / 2) -> %s' % (
-        ds(c['ref']), ' , '.join(ds(d) for d in c['oth']), opts + ' ' if opts else '', c['vden'], tail)
 
 
 def run(ctx, wd):
